@@ -876,18 +876,11 @@ class VBSClusteringManager:
                     or self._joined_cluster_id
                     == self._nearby_clusters.get(0, _NearbyCluster(0, 0, 0, 0, 0, 0, 0, None, 0)).cluster_id
                 ):
-                    reason_str = breakup_info.get(
-                        "clusterBreakupReason", "clusterDisbandedByLeader"
-                    )
-                    if reason_str == ClusterBreakupReason.RECEPTION_OF_CPM_CONTAINING_CLUSTER.value:
-                        # May stay PASSIVE per clause 5.4.2.2
-                        logger.info(
-                            "Cluster %d broken up by leader (CPM reason); "
-                            "remaining in VRU_PASSIVE.",
-                            self._joined_cluster_id,
-                        )
-                    else:
-                        self._do_leave_to_standalone(ClusterLeaveReason.CLUSTER_DISBANDED_BY_LEADER)
+                    # The cluster ceases to exist whatever reason the leader gives.
+                    # Staying VRU_PASSIVE would keep the former leader on record,
+                    # whose individual VAMs refresh the leader-lost timer, so this
+                    # VRU would never transmit again.
+                    self._do_leave_to_standalone(ClusterLeaveReason.CLUSTER_DISBANDED_BY_LEADER)
 
         # Refresh leader heartbeat when we are passive
         if (
